@@ -194,6 +194,8 @@ bool VM::executeSingle() {
       WordIndex source_off = this->stack.back().data_start;
       this->data[target_off + ret_target] = this->data[source_off + ret_source];
       this->instruction_pointer = this->stack.back().ret_addr;
+      // release the frame of the returning activation
+      this->data.resize(source_off);
       this->stack.pop_back();
       break;
     }
